@@ -252,6 +252,9 @@ def notification_names() -> List[str]:
 
 def params_shapes(method: str) -> List[Any]:
     base: List[Any] = ["__missing__", {}, {"extra": {"deep": [None, 1.5]}, "_meta": {"progressToken": 1}}]
+    # the reserved member in every JSON type (a peer may send anything; whatever the handler makes of it is a response)
+    base += [{"_meta": m} for m in (None, "abc", 7, [1, 2], True, {}, {"progressToken": None}, {"progressToken": {"o": 1}},
+                                    {"progressToken": "tok", "other": [None]})]
     if method == "tools/call":
         base += [{"name": n} for n in sorted(GOOD_TOOLS | RAISING_TOOLS)]
         base += [{"name": "echo", "arguments": {"text": "hi  "}}, {"name": "echo", "arguments": None},
